@@ -8,6 +8,7 @@ import (
 	"encoding/json"
 	"fmt"
 	"io"
+	"net/http"
 	"net/http/httptest"
 	"os"
 	"os/exec"
@@ -85,6 +86,13 @@ func (v *V) Panic(ctx context.Context, kind int) (int, error) {
 		panic(e) // panic(nil): a *runtime.PanicNilError since Go 1.21
 	case 11:
 		panic(&api.Pt{X: 1, Y: "two"})
+	case 12:
+		panic(http.ErrAbortHandler) // the sentinel net/http uses to abort a response: to the library just another payload
+	case 13:
+		panic(struct {
+			C chan int
+			F func()
+		}{make(chan int), func() {}}) // a payload encoding/json cannot marshal
 	}
 	return 0, nil
 }
